@@ -7,13 +7,24 @@ def failure_class(violation_dict):
     return (violation_dict["clause"], d.get("exc"), d.get("budget"), d.get("fn"))
 
 
+def _replay_isolated(eng, candidate):
+    """Each attempt runs in a forked child of the pristine minimiser process (no state leaks between attempts)."""
+    from sim import isolate
+
+    def child():
+        violation, index, digest = eng.replay(candidate["property"], candidate)
+        return (violation.as_dict() if violation is not None else None, index, digest)
+
+    return isolate.run(child, (), timeout=300.0, before=getattr(eng, "prepare", None), after=getattr(eng, "finish", None))
+
+
 def _fails_same(eng, trace, ops, clause):
     candidate = dict(trace, ops=ops)
     try:
-        violation, index, _ = eng.replay(trace["property"], candidate)
+        violation, index, _ = _replay_isolated(eng, candidate)
     except Exception:
         return None
-    if violation is None or failure_class(violation.as_dict()) != failure_class(trace["violation"]):
+    if violation is None or failure_class(violation) != failure_class(trace["violation"]):
         return None
     return ops[:index + 1]
 
@@ -66,10 +77,10 @@ def minimise(eng, trace, max_exec=400):
     out = dict(trace)
     out["ops"] = ops
     # refresh the recorded violation from the minimised trace
-    violation, index, digest = eng.replay(prop, out)
+    violation, index, digest = _replay_isolated(eng, out)
     executions += 1
-    if violation is not None and failure_class(violation.as_dict()) == failure_class(trace["violation"]):
-        out["violation"] = violation.as_dict()
+    if violation is not None and failure_class(violation) == failure_class(trace["violation"]):
+        out["violation"] = violation
         out["digest"] = digest
     else:
         out = dict(trace)
